@@ -608,6 +608,7 @@ pub fn check_stream(case: &Case, so: StreamOpts, o: &mut Outcome) -> Result<(), 
                         }
                     }
                     o.label("v9");
+                    size_labels(o, &r);
                     off += r.len;
                 }
                 10 => {
@@ -631,6 +632,7 @@ pub fn check_stream(case: &Case, so: StreamOpts, o: &mut Outcome) -> Result<(), 
                         }
                     }
                     o.label("ipfix");
+                    size_labels(o, &r);
                     off += r.len;
                 }
                 _ => {
@@ -651,6 +653,9 @@ pub fn check_stream(case: &Case, so: StreamOpts, o: &mut Outcome) -> Result<(), 
         if ci > 0 {
             o.label("multi-call");
         }
+        if ci == 0 && case.params.contains_key("retransmission") {
+            o.label("retransmitted-packet");
+        }
     }
     // generator self-check: the builder's own record count must agree with the reference decode
     if let Some(b) = case.params.get("built_data_records") {
@@ -659,6 +664,30 @@ pub fn check_stream(case: &Case, so: StreamOpts, o: &mut Outcome) -> Result<(), 
         }
     }
     Ok(())
+}
+
+
+/// size classes of a reference-decoded packet (evidence histogram)
+fn size_labels(o: &mut Outcome, r: &crate::refdec::RefPkt) {
+    if r.len >= 32 * 1024 {
+        o.label("packet>=32KiB");
+    }
+    if r.sets.len() >= 200 {
+        o.label("sets-per-packet>=200");
+    }
+    for s in &r.sets {
+        match &s.body {
+            RefBody::Data { def, records, .. } => {
+                if records.len() >= 1000 {
+                    o.label("records-per-set>=1000");
+                }
+                if def.fields.len() >= 1000 {
+                    o.label("data-under-template-of>=1000-fields");
+                }
+            }
+            _ => {}
+        }
+    }
 }
 
 /// wrap `check_stream` into an Outcome; "HARNESS:" messages become harness errors (exit 2)
